@@ -60,15 +60,24 @@ type simWorld struct {
 	fed  *federation
 	data *dataGraph
 
-	mu       sync.Mutex
-	log      []*recorded
-	seq      int
-	faultFor func(r *recorded) *fault           // decided from the request's content (never from arrival order)
-	gate     func(r *recorded)                  // optional: blocks until the schedule releases this request
-	pollSDL  map[string]func() (string, *fault) // optional per-service override of the poll answer
-	maxBody  int64
-	laxLists bool // the services leave null elements in [T!] lists (execCtx.laxLists)
-	cookies  bool // every answer to a query sets a cookie naming the client request it belonged to (as a load balancer might)
+	mu         sync.Mutex
+	log        []*recorded
+	seq        int
+	faultFor   func(r *recorded) *fault           // decided from the request's content (never from arrival order)
+	gate       func(r *recorded)                  // optional: blocks until the schedule releases this request
+	pollSDL    map[string]func() (string, *fault) // optional per-service override of the poll answer
+	maxBody    int64
+	laxLists   bool // the services leave null elements in [T!] lists (execCtx.laxLists)
+	foreignExt bool // injected GraphQL errors carry extensions of their own that name another service (as a nested gateway's would)
+	cookies    bool // every answer to a query sets a cookie naming the client request it belonged to (as a load balancer might)
+}
+
+// foreignExtensions: what a downstream that is itself a gateway puts on its errors
+func (w *simWorld) foreignExtensions() string {
+	if !w.foreignExt {
+		return ""
+	}
+	return `,"extensions":{"code":"UPSTREAM","serviceName":"someone-else","serviceUrl":"http://elsewhere.invalid/query","selectionSet":"{ other }","selectionPath":["other"]}`
 }
 
 func (w *simWorld) requests() []*recorded {
@@ -231,7 +240,7 @@ func (w *simWorld) roundTrip(req *http.Request) (*http.Response, error) {
 	errs := x.errs
 	if f != nil && f.Kind == "errors_partial" {
 		rec.Fault = f.Kind
-		errs = append(errs, execErr{Msg: "injected partial failure"})
+		errs = append(errs, execErr{Msg: "injected partial failure", Ext: w.foreignExtensions()})
 	}
 	if len(errs) > 0 {
 		sb.WriteString(`"errors":[`)
@@ -243,7 +252,7 @@ func (w *simWorld) roundTrip(req *http.Request) (*http.Response, error) {
 			if e.Path == nil {
 				pb = []byte("[]")
 			}
-			sb.WriteString(`{"message":` + jsonString(e.Msg) + `,"path":` + string(pb) + `}`)
+			sb.WriteString(`{"message":` + jsonString(e.Msg) + `,"path":` + string(pb) + e.Ext + `}`)
 		}
 		sb.WriteString(`],`)
 	}
@@ -314,7 +323,7 @@ func (w *simWorld) faultReply(req *http.Request, rec *recorded, f *fault, _ stri
 	case "badjson":
 		return jsonResp(req, 200, `{"data": {"oops" `), nil
 	case "errors_null":
-		rec.Reply = `{"errors":[{"message":"service exploded","path":[]}],"data":null}`
+		rec.Reply = `{"errors":[{"message":"service exploded","path":[]` + w.foreignExtensions() + `}],"data":null}`
 		return jsonResp(req, 200, rec.Reply), nil
 	}
 	return nil, errors.New("unknown fault " + f.Kind)
